@@ -38,7 +38,10 @@ Inductive case09 :=
 | CaseStr (s : string) (valid : bool) (escaped : string) (scanned : option string) (k : nat)
 (* the link between the two: the bytes of a .json file written by Cache.WriteSpec for a Spec that carries s as the value of the
    annotation example.com/note *)
-| CaseLit (s : string) (file : string).
+| CaseLit (s : string) (file : string)
+(* a Spec too large to print as a term (n devices, about [bytes] bytes per file): the harness compares the read-back Spec and the
+   devices loaded through the cache with the original itself; enc as above *)
+| CaseBig (n bytes enc : nat) (same : bool).
 
 Fixpoint has_infix (p s : string) : bool :=
   has_prefix p s || match s with String _ r => has_infix p r | EmptyString => false end.
@@ -61,6 +64,7 @@ Definition corr09 (c : case09) : bool :=
       opt_string_eqb (yaml_dq_scan escaped) scanned &&       (* the scanner model on the real literal is the real reader *)
       Nat.eqb k (str_class s)
   | CaseLit s file => has_infix (note_member s) file       (* the library's JSON writer is encoding/json with HTML escaping *)
+  | CaseBig _ _ _ _ => true
   end.
 Definition oracle09 (c : case09) : bool :=
   match c with
@@ -72,6 +76,7 @@ Definition oracle09 (c : case09) : bool :=
   | CaseStr s valid _ scanned _ =>                           (* the property speaks of valid UTF-8 strings *)
       negb valid || match scanned with Some x => String.eqb x s | None => false end
   | CaseLit _ _ => true
+  | CaseBig _ _ _ same => same
   end.
 Definition judge09 (cases : list case09) : list nat * list nat :=
   (bad_indices corr09 0 cases, bad_indices oracle09 0 cases).
